@@ -53,7 +53,7 @@ def generate(seed, batch):
         scen['mat'] = {
             'n': n, 'nnull': rng.choice([0, 0, 1, 2, 3, rng.randint(0, max(0, n // 3))]),
             'density': rng.choice([1.0, 0.5, 0.2, 0.1]), 'cond_exp': rng.choice([0.3, 1.0, 2.0, 4.0]),
-            'clustered': rng.random() < 0.3, 'mass': rng.choice(['spd', 'spd', 'diag', 'identity']),
+            'clustered': rng.random() < 0.3, 'chain': rng.random() < 0.12, 'mass': rng.choice(['spd', 'spd', 'diag', 'identity']),
             'mseed': rng.getrandbits(40), 'w_min': 10 ** rng.uniform(-2, 3),
             'mass_mag': rng.choice([1.0, 1.0, 10 ** rng.uniform(-15, 3)]),
         }
@@ -369,7 +369,10 @@ def execute(scen):
         w2 = eigh(Ka, Ma, eigvals_only=True)
         w_ref = np.sqrt(np.maximum(w2, 0.0))
         ekm = np.linalg.eigvalsh(Ka + Ma)
-        ref = {'w': w_ref, 'mmin': float(np.linalg.eigvalsh(Ma).min()), 'condKM': float(ekm.max() / ekm.min())}
+        ek = np.linalg.eigvalsh(Ka)
+        # conditioning that limits the shift-invert resolution: of the shifted matrix K+M and of K itself
+        ref = {'w': w_ref, 'mmin': float(np.linalg.eigvalsh(Ma).min()),
+               'condKM': float(max(ekm.max() / ekm.min(), ek.max() / max(ek.min(), 1e-300)))}
         K = csr_matrix(Kd)
         M = csr_matrix(Md)
         before = (K.data.tobytes(), M.data.tobytes(), K.indices.tobytes(), M.indices.tobytes())
@@ -430,8 +433,9 @@ def execute(scen):
                 obj.mu = scen2['model']['mu']
                 Ka2, Ma2 = K2[np.ix_(active, active)], M2[np.ix_(active, active)]
                 ekm2 = np.linalg.eigvalsh(Ka2 + Ma2)
+                ek2 = np.linalg.eigvalsh(Ka2)
                 ref2 = {'w': np.sqrt(np.maximum(eigh(Ka2, Ma2, eigvals_only=True), 0.0)), 'mmin': float(np.linalg.eigvalsh(Ma2).min()),
-                        'condKM': float(ekm2.max() / ekm2.min())}
+                        'condKM': float(max(ekm2.max() / ekm2.min(), ek2.max() / max(ek2.min(), 1e-300)))}
                 try:
                     vals5, vecs5 = call_impl(scen, None, None, k, sparse, sort, reduced, obj=obj)
                 except Exception as e:
@@ -447,7 +451,8 @@ def execute(scen):
                     bump(res['exceptions'], 'scaled_' + type(e).__name__)
                 else:
                     ekm_s = np.linalg.eigvalsh(Ka + Ma * s)
-                    ref_s = {'w': w_ref / np.sqrt(s), 'mmin': ref['mmin'] * s, 'condKM': float(ekm_s.max() / ekm_s.min())}
+                    ref_s = {'w': w_ref / np.sqrt(s), 'mmin': ref['mmin'] * s,
+                             'condKM': float(max(ekm_s.max() / ekm_s.min(), ek.max() / max(ek.min(), 1e-300)))}
                     check_result(scen, Kd, Md * s, active, vals3, vecs3, k, sparse, sort, ref_s, log, res, tag='(scaled-mass)')
                     bump(res['probes'], 'F6_checked')
         pr = res['probes']
